@@ -309,6 +309,8 @@ def recheck_worker(wid, queue, lock, muts, outfh):
                     r["status"] = "killed-by-check"
                     r["by"] = prop
                     break
+                if rc not in (0, 1):
+                    r["machinery"] = prop + ": " + out[-1200:]
             r["rechecked"] = True
             subprocess.run("git checkout -- .", shell=True, cwd=wt)
             with lock:
@@ -319,7 +321,7 @@ def recheck_worker(wid, queue, lock, muts, outfh):
         subprocess.run("git -C /repo worktree remove --force %s; git -C /repo worktree prune" % wt, shell=True, stdout=subprocess.DEVNULL, stderr=subprocess.DEVNULL)
 
 
-def recheck(nworkers):
+def recheck(nworkers, fresh_files=None):
     """Second pass: every survivor is run against all the other properties' quick checks too."""
     muts = {}
     for l in open(os.path.join(OUT, "mutants.jsonl")):
@@ -329,7 +331,13 @@ def recheck(nworkers):
     for l in open(os.path.join(OUT, "results.jsonl")):
         r = json.loads(l)
         rs[r["id"]] = r  # later lines (rechecks) override
-    queue = [r for r in rs.values() if r["status"] == "survived" and not r.get("rechecked")]
+    if fresh_files:
+        # Run the survivors of these files against every check again, as the checks are now.
+        queue = [dict(r, checks={}, rechecked=False) for r in rs.values() if r["status"] == "survived" and any(f in r["file"] for f in fresh_files)]
+        for r in queue:
+            r.pop("machinery", None)
+    else:
+        queue = [r for r in rs.values() if r["status"] == "survived" and not r.get("rechecked")]
     print("to recheck:", len(queue))
     lock = threading.Lock()
     with open(os.path.join(OUT, "results.jsonl"), "a") as fh:
@@ -376,6 +384,6 @@ if __name__ == "__main__":
         st = [int(a.split("=")[1]) for a in sys.argv[3:] if a.startswith("--stride=")]
         run(n, files or None, lim[0] if lim else None, st[0] if st else 1)
     elif cmd == "recheck":
-        recheck(int(sys.argv[2]) if len(sys.argv) > 2 else 4)
+        recheck(int(sys.argv[2]) if len(sys.argv) > 2 else 4, sys.argv[3:] or None)
     elif cmd == "report":
         report()
